@@ -21,7 +21,18 @@ const c18Universe = 3000
 
 const c18Dep = `package dep
 
+import (
+	"net/url"
+	"time"
+)
+
 type T struct{ A int }
+
+// W mentions packages which a package embedding or aliasing it does not import itself.
+type W interface {
+	When() time.Time
+	Where(u *url.URL) error
+}
 
 type I interface {
 	DepM(x int) string
@@ -224,6 +235,11 @@ func c18GenPackage(idx uint64) (name string, src string, tags []string) {
 					body = append(body, "\t"+e)
 				}
 			}
+			// (drawn from a hash, not from the generator's stream: the rest of the universe is unchanged)
+			if core.Hash64("embed-dep-W/"+name+"/"+n)%4 == 0 {
+				body = append(body, "\tdep.W")
+				g.tags = append(g.tags, "embeds-interface-of-third-package")
+			}
 			if g.rare("unexported-method", 8) {
 				body = append(body, "\thidden(x int) unexp")
 			}
@@ -243,6 +259,10 @@ func c18GenPackage(idx uint64) (name string, src string, tags []string) {
 		g.add("type %s interface{ comparable }", g.name("Cmp"))
 	}
 	g.add("type Base interface {\n\tBaseM(a int, b ...string) (int, error)\n}")
+	if core.Hash64("alias-dep-W/"+name)%3 == 0 {
+		g.add("type AliasW = dep.W")
+		g.tags = append(g.tags, "alias-of-interface-of-third-package")
+	}
 	// address oracle for the run-time driver
 	var cases []string
 	for _, v := range varNames {
